@@ -180,8 +180,10 @@ def compare_source_constants(found, model):
     read = found["read"]
     mism = []
 
+    exact = ("max_features", "heur_in", "heur_eq", "tro_eq", "prior_heuristics")     # tests specific enough that any other constant is a change
+
     def need(key, want, what):
-        if read[key] and want not in read[key]:
+        if read[key] and (want not in read[key] or (key in exact and read[key] != {want})):
             mism.append("%s: the source has %s, the model %r" % (what, sorted(map(repr, read[key])), want))
     need("max_features", model["max_features"], "3mr clamp constant compared with args.combination_number_upper_bound")
     need("heur_in", model["s_3mr"], "substring tested in args.heuristic")
